@@ -438,7 +438,7 @@ func genCase(t *rapid.T) Case {
 	return c
 }
 
-var propSession = vk.Register(&vk.Prop[Case]{Property: property, Name: "model", Gen: genCase, Check: check, Quick: 6000, Thorough: 40000})
+var propSession = vk.Register(&vk.Prop[Case]{Property: property, Name: "model", Gen: genCase, Check: check, Quick: 20000, Thorough: 60000})
 
 func TestModel(t *testing.T) { propSession.Run(t) }
 
